@@ -23,6 +23,18 @@ def expectedErrors (ids : List Nat) : List Nat := ids.filter isErrId
 def checkPair (broke : Bool) (expected got : List Nat) : Bool :=
   got.isSublist expected && (broke || got == expected)
 
+def hasDup : List Nat → Bool
+  | [] => false
+  | x :: xs => xs.contains x || hasDup xs
+
+/-- why a pair fails (for the report; `checkPair` is the specification) -/
+def pairClause (broke : Bool) (expected got : List Nat) : String :=
+  if hasDup got then "duplicate"
+  else if !(got.all expected.contains) then "invented"
+  else if !got.isSublist expected then "reordered"
+  else if !broke && got != expected then "lost"
+  else "ok"
+
 /-- `s0:1-5,9|s1:…` → per-sender lists -/
 def parsePerSender (s : String) : Option (List (List Nat)) :=
   if s.isEmpty then some [] else
@@ -41,12 +53,14 @@ def checkBurst (broke : Bool) (ns count base : Nat) (recv rep err : List (List N
   else if foreign != 0 then some "foreign-sender"
   else
     let ks := List.range ns
-    if !(ks.all fun k => checkPair broke (idsOf base k count) (recv.getD k [])) then
-      some (if broke then "delivered-duplicate-or-reordered" else "delivered-not-equal-sent")
-    else if !(ks.all fun k => checkPair broke (expectedReplies (idsOf base k count)) (rep.getD k [])) then
-      some (if broke then "reply-duplicate-or-reordered" else "reply-lost-or-misrouted")
-    else if !(ks.all fun k => checkPair broke (expectedErrors (idsOf base k count)) (err.getD k [])) then
-      some (if broke then "error-reply-duplicate-or-reordered" else "error-reply-lost-or-misrouted")
-    else none
+    let bad (what : String) (exp : Nat → List Nat) (got : List (List Nat)) : Option String :=
+      (ks.find? fun k => !checkPair broke (exp k) (got.getD k [])).map fun k =>
+        what ++ "-" ++ pairClause broke (exp k) (got.getD k [])
+    match bad "delivered" (fun k => idsOf base k count) recv with
+    | some c => some c
+    | none =>
+      match bad "reply" (fun k => expectedReplies (idsOf base k count)) rep with
+      | some c => some c
+      | none => bad "error-reply" (fun k => expectedErrors (idsOf base k count)) err
 
 end MV.Spec.Remote
